@@ -21,6 +21,7 @@ import (
 	"github.com/zmap/zlint/v3/lint"
 	"github.com/zmap/zlint/v3/util"
 
+	dt "verifharness/dertree"
 	"verifharness/engine"
 	"verifharness/gen"
 	"verifharness/stats"
@@ -126,6 +127,7 @@ func TestColdUtil(t *testing.T) {
 	runtime.GOMAXPROCS(W)
 	got := make([][]string, W)
 	panics := make([]string, W)
+	var coldReady atomic.Int32
 	var wg sync.WaitGroup
 	start := make(chan struct{})
 	for w := 0; w < W; w++ {
@@ -139,6 +141,10 @@ func TestColdUtil(t *testing.T) {
 			}()
 			got[w] = make([]string, len(calls))
 			<-start
+			coldReady.Add(1)
+			for coldReady.Load() < W {
+				runtime.Gosched()
+			}
 			for k := range calls {
 				i := (shard*37 + w*((len(calls)/W)|1) + k) % len(calls)
 				got[w][i] = calls[i].f()
@@ -395,6 +401,7 @@ func TestConcurrentKeys(t *testing.T) {
 		d string
 	}
 	got := make([][]seen, W)
+	var ready atomic.Int32
 	var wg sync.WaitGroup
 	start := make(chan struct{})
 	for w := 0; w < W; w++ {
@@ -402,6 +409,11 @@ func TestConcurrentKeys(t *testing.T) {
 		go func(w int) {
 			defer wg.Done()
 			<-start
+			// released together: the first calls of the key-quality code overlap in time
+			ready.Add(1)
+			for ready.Load() < W {
+				runtime.Gosched()
+			}
 			for it := 0; it < iters; it++ {
 				i := (w*31 + it*7) % len(ders)
 				c, ok := gen.ParseCert(ders[i])
@@ -511,6 +523,37 @@ func TestConcurrentScope(t *testing.T) {
 				der := v.DER()
 				if _, ok := gen.ParseCert(der); ok {
 					ders = append(ders, der)
+				}
+			}
+		}
+	}
+	// names, likewise: certificates whose names decide what applies (.onion names, reverse-DNS names, internal names)
+	// next to a certificate with thousands of unremarkable dNSNames - a walk over those takes long enough for the
+	// short ones to pass through the same name helpers many times (even index: short, odd index: long)
+	{
+		var short [][]byte
+		for i := 0; i < len(co.Certs) && len(short) < 6; i++ {
+			c, ok := gen.ParseCert(co.Certs[(i+shard*29)%len(co.Certs)].DER)
+			if !ok {
+				continue
+			}
+			for _, n := range c.DNSNames {
+				if strings.HasSuffix(n, ".onion") || strings.HasSuffix(n, ".arpa") {
+					short = append(short, co.Certs[(i+shard*29)%len(co.Certs)].DER)
+					break
+				}
+			}
+		}
+		var gns []*dt.Node
+		for i := 0; i < stats.Scale(2500, 6000); i++ {
+			gns = append(gns, gen.GNDNS([]byte(fmt.Sprintf("host%d.example.com", i))))
+		}
+		for _, sh := range short {
+			if v, err := gen.ViewCert(bases[0]); err == nil {
+				v.SetSAN(false, gns...)
+				long := v.DER()
+				if _, ok := gen.ParseCert(long); ok {
+					ders = append(ders, sh, long)
 				}
 			}
 		}
